@@ -1,17 +1,60 @@
 import sys, os
 sys.path.insert(0, os.path.dirname(os.path.dirname(os.path.abspath(__file__))))
-from vlib import gocheck
+from vlib import tvcheck, runner, gosymrun, gocheck
+from templates import families
+from checks.c01 import ASSUME as TV_ASSUME
+
+ASSUME = gocheck.GOSYM_ASSUME + [
+    'KERNEL: literal text = optional "-" (decimal), base prefix, digits, optional "_" before the last digit; digit values are the symbolic inputs and the text bytes are derived from them',
+    'KERNEL oracle: value = sum digit_k * base^k computed in 64-bit unsigned arithmetic (digit counts bounded so that it cannot overflow); accepted <=> value in the range of the type',
+    'the accept/reject decision for the 128/256-bit types is not decided (HarnessC10Big exists but its queries mix bv2nat and integer arithmetic and do not finish)',
+    'GENERATED CODE (wide literal templates): contracts for ferret_{i,u}{128,256}_{from_string,from_i64,from_u64,to_i64,eq,lt,gt}_ptr in lirsym/rtsum.py (from_string on the concrete literal text = its value mod 2^N); discharged against bigint.c by C16 (from_string for short texts + the accumulation step, comparisons, conversions)',
+    'the lexer NumberPattern and literal positions other than a let initialiser are outside this check',
+] + TV_ASSUME[1:3]
+
+
+def post(rep, templates, results):
+    groups = [dict(pkg='compiler/internal/semantics/typechecker', rel='internal/semantics/typechecker', harnesses=['HarnessC10Small', 'HarnessC10LeadingZero'])]
+    for g in groups:
+        try:
+            rs = gosymrun.run(g['pkg'], g['harnesses'], max_paths=100000, timeout_ms=20000, wall_timeout=1700)
+        except Exception as e:
+            rep.inconc(g['pkg'], 'gosym: %s' % e)
+            continue
+        for r in rs:
+            res = r['result']
+            st = res.get('stats') or {}
+            rep.coverage.setdefault('kernel_harnesses', []).append({'harness': res['harness'], 'status': res['status'], 'paths': st.get('paths'), 'queries': st.get('queries'),
+                                                                    'asserts_checked': st.get('asserts_checked'), 'solver_s': round(st.get('solver_s', 0), 2)})
+            if res['status'] == 'inconclusive':
+                rep.inconc(res['harness'], '; '.join(res.get('unsupported') or ['?']))
+            if st.get('paths_ok', 0) == 0 and res['status'] == 'held':
+                rep.inconc(res['harness'], 'vacuous: no path reached the end of the harness')
+            for wm in (res.get('witnesses') or [])[:1]:
+                rr = gosymrun.replay(g['pkg'], g['rel'], res['harness'], wm)
+                rep.coverage['kernel_witness_replays'] = rep.coverage.get('kernel_witness_replays', 0) + 1
+                if rr['kind'] != 'ok' and not res.get('violations'):
+                    rep.inconc(res['harness'], 'encoder-mismatch: witness %s replays natively as %s' % (wm, rr))
+            seen = set()
+            for v in res.get('violations') or []:
+                if v['msg'] in seen:
+                    continue
+                seen.add(v['msg'])
+                rr = gosymrun.replay(g['pkg'], g['rel'], res['harness'], v['model'])
+                if rr['kind'] not in ('assert', 'panic'):
+                    rep.inconc(res['harness'], 'counterexample did not reproduce natively: %s' % rr)
+                    continue
+                rep.violation('%s: %s' % (res['harness'], v['msg']), '%s with %s; native replay %s' % (v['msg'], v['model'], rr), kind=v['kind'],
+                              replay={'harness': res['harness'], 'model': v['model'], 'native': rr})
+
 
 def main():
-    groups = [dict(pkg='compiler/internal/semantics/typechecker', rel='internal/semantics/typechecker', harnesses=['HarnessC10Small', 'HarnessC10LeadingZero'],
-                   max_paths=100000, timeout_ms=20000, wall_timeout=1700)]
-    rc = gocheck.run('C10', 'model_checking', groups, gocheck.GOSYM_ASSUME + [
-        'literal text = optional "-" (decimal), base prefix, digits, optional "_" before the last digit; digit values are the symbolic inputs and the text bytes are derived from them',
-        'oracle: value = sum digit_k * base^k computed in 64-bit unsigned arithmetic (digit counts bounded so that it cannot overflow); accepted <=> value in the range of the type',
-        'the 128/256-bit types are not decided here (the harness exists, HarnessC10Big, but its queries mix bv2nat and integer arithmetic and do not finish); the run-time materialisation of large literals (ferret_*_from_string accumulation step) is decided by C16',
-        'the lexer NumberPattern, literal positions (argument / return) and the materialisation of the value in generated code are outside this check',
-    ], 'fitsInType -> numeric.NewNumericValue (cleanNumericString, the real strconv.ParseInt interpreted from source, base-0 prefix handling) -> FitsInBitSize are executed symbolically on literal texts whose digits are symbolic: decimal (1,3,5 digits quick / up to 19 thorough), hex, octal, binary, with and without a separator and a minus sign; for each of the 8 types up to 64 bits the solver decides accepted <=> mathematical value in range, in both directions. A second harness covers decimal literals written with leading zeros.')
+    ts = families.c10_wide(runner.tier())
+    rc, _ = tvcheck.run('C10', ts, 'model_checking', ASSUME,
+        'KERNEL (gosym): fitsInType -> numeric.NewNumericValue (cleanNumericString, the real strconv.ParseInt interpreted from source, base-0 prefix handling) -> FitsInBitSize executed symbolically on literal texts whose digits are symbolic: decimal, hex, octal, binary, with and without a separator and a minus sign; for each of the 8 types up to 64 bits the solver decides accepted <=> mathematical value in range, in both directions; a second harness covers leading zeros. GENERATED CODE (lirsym/qbe): for i128/u128/i256/u256 literals at the boundaries 2^63, 2^64, 2^127, 2^255 and around them the emitted QBE IL is executed symbolically (the literal is compared with ==, >, < against a value built from the parameter and its low 64 bits are returned) and compared with the reference for all parameter values: the running program observes exactly the literal value.',
+        reject_is_violation=True, post=post)
     sys.exit(rc)
+
 
 if __name__ == '__main__':
     main()
